@@ -1367,7 +1367,12 @@ func (s *Session) closeWithError(err error) error {
 	} else {
 		log.Debugf("Closing %v with error %v", s, err)
 	}
-	if s.isState(sessionAttached) || s.isState(sessionEstablished) {
+	// A client session that never sent its openSessionRequest is unknown to
+	// the server. A closeSessionRequest for it is useless, and as the first
+	// segment of a new stream underlay it makes the server tear down the
+	// connection together with the other sessions multiplexed on it.
+	neverOpened := s.isClient && s.isState(sessionAttached) && !s.openSessionRequestSent.Load()
+	if (s.isState(sessionAttached) || s.isState(sessionEstablished)) && !neverOpened {
 		// Send closeSessionRequest, but don't wait for closeSessionResponse,
 		// because the underlay connection may be already broken.
 		s.oLock.Lock()
